@@ -4,9 +4,11 @@ sources + flags + arguments) of the quick and thorough tiers.  DESIGN.md §4."""
 CHECKS = {}
 
 
-def tree_job(kind, name, n, iters=0, tear=0, inv=1, san='', unpacked=False, deadline=None, uchar=False, pack2=False, cc=None):
+def tree_job(kind, name, n, iters=0, tear=0, inv=1, san='', unpacked=False, deadline=None, uchar=False, pack2=False, cc=None, pack4=False):
     defs = ['-DTREE_%s' % kind.upper()]
-    bn = '%s%s%s%s%s%s' % (kind, '-asan' if san else '', '-unpacked' if unpacked else '', '-uchar' if uchar else '', '-pack2' if pack2 else '', '-' + cc if cc else '')
+    bn = '%s%s%s%s%s%s' % (kind, '-asan' if san else '', '-unpacked' if unpacked else '', '-uchar' if uchar else '', '-pack2' if pack2 else '-pack4' if pack4 else '', '-' + cc if cc else '')
+    if pack4:
+        defs.append('-DTREE_PACK4')  # nodes at addresses that are 4 modulo 8 (the AVL node promises 4-byte alignment only)
     if pack2:
         defs.append('-DTREE_PACK2')  # nodes at addresses that are 2 modulo 4 (the red-black node promises 2-byte alignment only)
     if unpacked:
@@ -37,12 +39,14 @@ def c01_jobs(tier):
                 tree_job('avl', 'avl-packed-asan-n13', 13, san='asan', deadline=100),
                 tree_job('avl', 'avl-unpacked-n14', 14, unpacked=True, deadline=100),
                 tree_job('avl', 'avl-unpacked-uchar-n12', 12, unpacked=True, uchar=True, deadline=100),
+                tree_job('avl', 'avl-pack4-n12', 12, pack4=True, deadline=100),
                 tree_job('avl', 'avl-packed-clang-n14', 14, cc='clang', deadline=100)]
     return [tree_job('avl', 'avl-packed-n27', 27, deadline=2400),
             tree_job('avl', 'avl-packed-asan-n20', 20, san='asan', deadline=2400),
             tree_job('avl', 'avl-unpacked-n25', 25, unpacked=True, deadline=2400),
             tree_job('avl', 'avl-unpacked-asan-n18', 18, unpacked=True, san='asan', deadline=2400),
             tree_job('avl', 'avl-unpacked-uchar-n20', 20, unpacked=True, uchar=True, deadline=2400),
+            tree_job('avl', 'avl-pack4-n20', 20, pack4=True, deadline=2400),
             tree_job('avl', 'avl-packed-clang-n22', 22, cc='clang', deadline=2400)]
 
 
@@ -72,6 +76,7 @@ def c03_jobs(tier):
                 tree_job('avl', 'avl-unpacked-iter-tear-n11', 11, 1, 1, 0, unpacked=True, deadline=100),
                 tree_job('rbt', 'rbt-unpacked-iter-tear-n10', 10, 1, 1, 0, unpacked=True, deadline=100),
                 tree_job('rbt', 'rbt-pack2-iter-tear-n10', 10, 1, 1, 0, pack2=True, deadline=100),
+                tree_job('avl', 'avl-pack4-iter-tear-n10', 10, 1, 1, 0, pack4=True, deadline=100),
                 tree_job('rbt', 'rbt-clang-iter-tear-n10', 10, 1, 1, 0, cc='clang', deadline=100)]
     return [tree_job('avl', 'avl-iter-tear-n23', 23, 1, 1, 0, deadline=2400),
             tree_job('rbt', 'rbt-iter-tear-n20', 20, 1, 1, 0, deadline=2400),
@@ -103,7 +108,7 @@ CHECKS['C02'] = {
 CHECKS['C03'] = {
     'title': 'tree iterators and tear-down on every reachable shape', 'level': 'model_checking', 'jobs': c03_jobs,
     'rule': TREE_RULE % ('src/avl.c and src/rbt.c', '; in every state additionally the 12 foreach loop forms, the 6 step functions from every node, head/tail/post_head/post_tail, '
-                         'and tear-down interrupted after every k in 0..n (continued with the saved cursor, and restarted with a null cursor - before the restart every iterator form and step function runs on the remaining tree), every handed-out node being poisoned at once'),
+                         'and tear-down interrupted after every k in 0..n (continued with the saved cursor, and restarted with a null cursor - before the restart every iterator form and step function runs on the remaining tree; likewise after 1, 2 and n/2 steps of the tear-down from every explicit starting node), every handed-out node being poisoned at once'),
     'assumptions': ['state set = reachable set of the C01/C02 explorations at the stated bound, regenerated by the same BFS',
                     'reads of a handed-out node are detected by ASan poisoning (asan jobs) and by wild-pointer poisoning (plain jobs: a followed pointer faults, a compared pointer changes the sequence)'],
 }
@@ -228,7 +233,7 @@ CHECKS['C06'] = {
              'rtrim/ltrim/trim and raw forms with four trim sets (isspace default, "a", " \\0", "\\xE9a"), setn for every k in 0..mem+1, setn_, setm, exit (ownership hand-over), swap, a_utf_catc at every '
              'UTF-8 length boundary, a_utf_len, catf with six formats; and length-focused (single letter, length <= N) with appends of every length 0..17 and catf("%s") of every argument length 0..17 so that the '
              'formatted text under-fills, exactly fills and over-fills the spare room at every fill level (one-pass and two-pass vsnprintf paths). Content, length<=capacity, NUL placement of the terminating '
-             'variants, return values and the allocator ledger are checked after every call; comparison functions are checked on all ordered pairs of strings of length <= 4 (5 thorough); a sweep over all 256 byte values takes each through the one-byte and the block appends / pops of both variants, "%s" formatting, one-byte trim sets, white-space trimming and comparison; comparison of operands whose lengths differ by 2^31-1 .. 2^33 (the long one an untouched 8 GiB anonymous mapping starting with the short one). '
+             'variants, return values and the allocator ledger are checked after every call; comparison functions are checked on all ordered pairs of strings of length <= 4 (5 thorough); a sweep over all 256 byte values takes each through the one-byte and the block appends / pops of both variants, "%s" formatting, one-byte trim sets, white-space trimming and comparison; comparison of operands whose lengths differ by 2^31-1 .. 2^33 (the long one an untouched 8 GiB anonymous mapping starting with the short one); the NUL after the content survives setm / setm_. '
              'Operations whose result leaves the alphabet (code points, formatted numbers) are executed and checked from every state but their successors are not expanded.'),
     'assumptions': ['host vsnprintf is the definition of what the C formatter produces', 'the raw setters a_str_setn_/a_str_setm_ are driven within their documented preconditions (k <= capacity); a_str_setm_ below the length is a capacity operation the statement does not list',
                     'isspace is evaluated in the "C" locale'],
@@ -337,7 +342,22 @@ def c17_jobs(tier):
     jobs = grid_jobs('crc', 'harness/crc.cpp', src, tier, 16)
     jobs += grid_jobs('crc-asan', 'harness/crc.cpp', src, 'quick', 4, san='asan')
     jobs += grid_jobs('crc-uchar', 'harness/crc.cpp', src, 'quick', 4, defs=['-funsigned-char'])  # plain char unsigned (ARM / PowerPC / RISC-V ABIs)
+    # the same sources as a distribution building for x86-64-v2 compiles them (SSE4.2 / POPCNT available: code under __SSE4_2__ and the
+    # like is compiled in); only where this machine can execute that code
+    if _cpu_has('sse4_2', 'popcnt', 'ssse3', 'cx16'):
+        jobs += grid_jobs('crc-x86-64-v2', 'harness/crc.cpp', src, 'quick', 4, defs=['-march=x86-64-v2'])
     return jobs
+
+
+def _cpu_has(*flags):
+    try:
+        for line in open('/proc/cpuinfo'):
+            if line.startswith('flags'):
+                have = set(line.split(':', 1)[1].split())
+                return all(f in have for f in flags)
+    except OSError:
+        pass
+    return False
 
 
 CHECKS['C17'] = {
@@ -346,7 +366,7 @@ CHECKS['C17'] = {
              'x both bit orders: all 256 table entries; the single update step for every (running value, byte) pair (all 2^16 pairs for CRC-8, all 2^24 for CRC-16 on the main polynomials, GF(2)-basis/complement/m*2^e running values for wider CRCs); '
              'every message of length <=2 over all 256 byte values and of length <=5 (6 thorough) over {00,01,30,7F,80,FF} with 3 initial values (0, all-ones, 0x5A..), each with EVERY split point including the empty pieces; the reflection relation between the two bit orders; one table object per width taken through a 9-step history (bit order switched with the same generator, storage wiped between two identical builds, generator changed and back) with all 256 entries checked after each step; '
              'hash and CRC functions called again with the same pointers after the message and the table were edited in place (straight-line code at -O2). '
-             'Hashes: definition val*M+byte, string form vs length-delimited form (strings placed directly before an inaccessible page), null pointer, every split point, on the same message sets with 4 seeds. distinct_nontrivial counts evaluations on non-empty messages / non-zero entries.'),
+             'Hashes: definition val*M+byte, string form vs length-delimited form (strings placed directly before an inaccessible page), null pointer, every split point, on the same message sets with 4 seeds; one chunk of 2^32+5 bytes (untouched address space, four bytes set) against the closed form. The sources are also built with -march=x86-64-v2 where the machine executes it (code under __SSE4_2__ compiled in). distinct_nontrivial counts evaluations on non-empty messages / non-zero entries.'),
     'assumptions': ['polynomials for widths above 8 bits are a stated set, not all 2^N', 'messages longer than 6 bytes are covered only through the composition law (a long message is a concatenation of short pieces)'],
     'design_ref': '§4.C17', 'technique': 'bounded-exhaustive enumeration of polynomials x running values x bytes x short messages x split points against bit-by-bit polynomial division',
     'level_text': 'CRC-8 is decided for every polynomial, running value and byte; wider CRCs for the stated polynomial sets; all short messages with every split point and the reflection law tie the table-driven routines to the bitwise definition; the hashes are checked against their folding definition with string/length agreement.',
@@ -521,7 +541,7 @@ def c14_jobs(tier):
 
 CHECKS['C14'] = {
     'title': 'velocity-profile trajectories respect kinematic limits and reach their end state', 'level': 'exploration', 'engine': 'grid', 'jobs': c14_jobs,
-    'rule': ('bounded-exhaustive enumeration of generator requests; every plan the real generator reports with a positive duration is interrogated on a time lattice. Trapezoid: vm in {1/2,1,2,3} x |ac|,|de| in {1/2,1,2,3} with signs matching the direction of travel x 11 distances 1/8..9 x both directions x 2 start positions x 13^2 boundary velocities (0, +-1/4, +-1/2, +-1, +-2, +-vm, +-1.25 vm: inside, at and beyond the limit -> clamping). '
+    'rule': ('bounded-exhaustive enumeration of generator requests; every plan the real generator reports with a positive duration is interrogated on a time lattice. Trapezoid: vm in {1/2,1,2,3} x |ac|,|de| in {1/2,1,2,3} with signs matching the direction of travel x 11 distances 1/8..9 x both directions x 2 start positions x 13^2 boundary velocities (0, +-1/4, +-1/2, +-1, +-2, +-vm, +-1.25 vm: inside, at and beyond the limit -> clamping); every request from position 0 also in units 4096 times smaller and larger (both generators). '
              'Bell (double-S): jm in {1,2,4,8,30} x am in {1/2,1,2,3,10} x vm in {1/2,1,2,3,5} x the same distances, directions, start positions and boundary velocities inside the limit, FILTERED by the textbook double-S feasibility condition (Biagiotti-Melchiorri 3.17-3.19) in the direction of travel; thorough adds non-dyadic and extreme values (trapezoid: 11 vm x 10 accelerations x 22 distances 0.01..100; bell: 12 jm x 10 am x 11 vm). Every request is also issued with the limit(s) given as negative numbers (a limit is a magnitude); contexts are pre-filled with stale plausible data. '
              'Per plan: phase durations non-negative, ordered and summing to the total (bell: 2*taj <= ta, 2*tdj <= td); start at the initial position with the clamped initial velocity; left limit at the end time reaches the final position and the recorded final velocity; queries at -1, -T, 0, T, T+1, 10T hold the boundary state; left/right limits of position and velocity (and acceleration for the bell profile) agree at every phase boundary read from the context; '
              'on a lattice of 33 (trapezoid) / 17 (bell) points per segment |vel| <= vm, bell |acc| <= am and |jer| <= jm, and vel/acc/jer equal central differences of pos/vel/acc. Tolerances are 100x the worst value observed on the unchanged tree (about 1200 eps of the motion scale for the iteratively solved no-cruise bell case). distinct_nontrivial = plans with positive duration.'),
